@@ -139,6 +139,18 @@ func checkC10(t *rapid.T) {
 			report("restart-changes-result", "execution with restart set '"+mode+"' differs", rec.Lines, r3.Lines)
 		}
 	}
+	// the process's local time zone is not an input: same trace with time.Local far from UTC
+	{
+		zones := []*time.Location{time.FixedZone("W", -8*3600), time.FixedZone("E", 9*3600), time.FixedZone("EE", 14*3600), time.FixedZone("WW", -12*3600)}
+		saved := time.Local
+		time.Local = zones[len(tr.Steps)%len(zones)]
+		rz := &mon.Recorder{}
+		eng.Replay(tr, prof, failT(t), rz)
+		time.Local = saved
+		if strings.Join(rec.Lines, "\n") != strings.Join(rz.Lines, "\n") {
+			report("time-zone-changes-result", "execution with another local time zone differs", rec.Lines, rz.Lines)
+		}
+	}
 	// metamorphic: dropping the failed messages leaves every block hash unchanged
 	r4 := &mon.Recorder{}
 	eng.Replay(withoutFailed(tr, rec.OKs), prof, failT(t), r4)
@@ -169,7 +181,7 @@ func checkC10(t *rapid.T) {
 	}
 	eng.G.Eval()
 	eng.G.Count("steps", len(tr.Steps))
-	eng.G.Count("C10/executions", 6)
+	eng.G.Count("C10/executions", 7)
 	nt := restartsInside > 0 && acceptedAfter >= 5 && (w.Accepted["anchor"]+w.Accepted["attest"]+w.Accepted["registerResolver"]+w.Accepted["defineResolver"]) > 0
 	if nt {
 		eng.G.Label("nontrivial")
@@ -194,7 +206,9 @@ func runChild(tr *eng.Trace) ([]string, error) {
 	out := f.Name() + ".out"
 	defer os.Remove(out)
 	cmd := exec.Command(os.Args[0], "-test.run", "^TestC10Child$")
-	cmd.Env = append(os.Environ(), "VERIF_C10_CHILD="+f.Name(), "VERIF_C10_OUT="+out, "VERIF_STATS=")
+	// the second process also lives in another time zone and with another GOMAXPROCS
+	tz := []string{"America/Los_Angeles", "Asia/Tokyo", "Pacific/Kiritimati", "UTC"}[len(tr.Steps)%4]
+	cmd.Env = append(os.Environ(), "VERIF_C10_CHILD="+f.Name(), "VERIF_C10_OUT="+out, "VERIF_STATS=", "TZ="+tz, "GOMAXPROCS=2")
 	if b, err := cmd.CombinedOutput(); err != nil {
 		return nil, fmt.Errorf("%v: %s", err, b)
 	}
